@@ -6,6 +6,11 @@ props = [json.loads(l)["id"] for l in open(os.path.join(ROOT, "properties.jsonl"
 
 # id -> (category, technique, level text, level note, design ref)
 CHECKS = {
+ "C14": ("exploration",
+         "runtime monitor: presented-leaf safety + bounded convergence over generated file-operation histories on the real filesystem with the real fsnotify watcher, concurrent handshakers stamped on one logical clock, race detector on",
+         "Each history runs the real certwatcher (New + Start) behind the real defaultTLSConfig on a loopback TLS listener while four handshakers connect continuously; steps in the three supported styles (in-place truncate/partial/full write, rename-over, Kubernetes symlinked-directory swap) in either file order, with garbage / empty / mismatched intermediate states. Safety: every presented serial must belong to a pair whose exposing step began before the handshake ended; no handshake may fail. Convergence (bounded restatement of 'eventually'): after a valid final pair, new handshakes present it within 5 s (observed ~15 ms) and keep presenting it. Held on the histories produced.",
+         "trusted: the content model in checks/c14 (what is on disk after each step), crypto/tls client; histories with an explicit deletion or a kept old directory are judged for safety only (not supported styles); the 5 s watchdog is the refutation of convergence and misses are re-run in isolation first",
+         "DESIGN.md §4 C14"),
  "C05": ("exploration",
          "runtime monitor: nonce leak detector at a recording backend over the full matrix protocol x injector outcome x injector set x client header form, race detector on",
          "Every request carries unique nonces under every injected header name in one of ten forms (case variants, repeats, empty, padded, 8 KiB, trailers on HTTP/1.1); connections on which JA3 or JA4 cannot be computed are produced on purpose (D9/D13-class hellos), custom injectors returning value / empty / error are configured through fingerproxy.GetHeaderInjectors; the backend must see either exactly the proxy's value (recomputed by the JA3/JA4 references) or no header. The 180-cell matrix is enumerated completely in both tiers. Held on the requests sent.",
